@@ -133,10 +133,11 @@ func CheckC05(spec *vexec.CaseSpec, out *vexec.Outcome, controlled bool) (rs []R
 			}
 		}
 		if timeout {
-			if en, ok := after(l.enters); ok {
-				add("started-after-timeout", "step %s's command started (event %d) after the DAG timeout had elapsed (event %d)", name, en, T)
-			}
-			obligations++
+			// Not judged here: the harness knows the DAG's deadline only approximately (the
+			// scheduler arms its own timer after the harness's start hook has returned; under load
+			// the two differ by more than any fixed margin), and the scripted executor itself
+			// refuses to start on an expired context exactly as exec.CommandContext does. That no
+			// process is started after the timeout is decided by the real-process pass.
 			continue
 		}
 		// (e) repeating steps
@@ -309,7 +310,7 @@ func c05Grid(prefix string) []*vexec.CaseSpec {
 		at  string
 		nth int
 	}
-	insts := []inst{{"decision", 2}, {"decision", 5}, {"launch", 0}, {"worker.beforeExec", 0}, {"worker.beforeExec", 1}, {"retry.wait", 0}, {"repeat.wait", 0}, {"handlers", 0}}
+	insts := []inst{{"decision", 2}, {"decision", 5}, {"beforeLaunch", 0}, {"beforeLaunch", 1}, {"launch", 0}, {"worker.beforeExec", 0}, {"worker.beforeExec", 1}, {"retry.wait", 0}, {"repeat.wait", 0}, {"handlers", 0}}
 	kinds := []struct{ kind, sos string }{{"signal", ""}, {"http", ""}, {"http", "SIGINT"}, {"signal", "SIGINT"}}
 	n := 0
 	for shape := 0; shape < 4; shape++ {
@@ -520,7 +521,7 @@ func c05Random(c *core.Ctx, idx int, level string) *vexec.CaseSpec {
 		kinds = []string{"signal", "http"}
 		spec.MaxCleanUpMs = 200
 	}
-	ats := []string{"decision", "decision", "decision", "launch", "worker.beforeExec", "retry.wait", "repeat.wait", "handlers"}
+	ats := []string{"decision", "decision", "decision", "beforeLaunch", "launch", "worker.beforeExec", "retry.wait", "repeat.wait", "handlers"}
 	spec.Stop = &vexec.StopSpec{Kind: kinds[r.Intn(len(kinds))], At: ats[r.Intn(len(ats))], Nth: r.Intn(4)}
 	if spec.Stop.At == "decision" {
 		spec.Stop.Nth = r.Intn(12)
